@@ -36,7 +36,8 @@ LEVEL_TEXT = ("Exploration: thousands of trees (all shape classes incl. single n
               " Generated trees come in several representations of the same values (strided, other dtypes / lists, one array as two columns, read-only where the harness never writes) and half of them were queried, a third put through aborted operations, before use. Feature queries come in random order with repeats; half of the populations consist of trees naming one source file."
               " Trees derived by the library from used ones; size sweep to 2050 nodes."
               " BranchTree instances as inputs."
-              " One tree in six is also measured from inside the callbacks of a traversal of another tree.")
+              " One tree in six is also measured from inside the callbacks of a traversal of another tree."
+              " Measurement bundles of twins under custom column names; a densely sampled chain of 40 000 compartments; Sholl with a fixed step and its summary shortcuts.")
 LEVEL_NOTE = ("Encodes these readings: node branch order = depth of a critical node in the branch "
               "tree; L-Measure branch order = furcations on the root path, ends included; tilt = "
               "the smaller angle at the bifurcation between the ray to the parent and a daughter "
